@@ -596,6 +596,7 @@ type Options struct {
 	PrintSep          string
 	Sync              bool
 	History           *History
+	historyMax        int
 	Header            []string
 	HeaderLines       int
 	HeaderFirst       bool
@@ -2178,6 +2179,10 @@ func parseOptions(index *int, opts *Options, allArgs []string) error {
 	var historyMax int
 	if opts.History == nil {
 		historyMax = defaultHistoryMax
+		// --history-size given by an earlier source ($FZF_DEFAULT_OPTS, options file)
+		if opts.historyMax > 0 {
+			historyMax = opts.historyMax
+		}
 	} else {
 		historyMax = opts.History.maxSize
 	}
@@ -2197,6 +2202,7 @@ func parseOptions(index *int, opts *Options, allArgs []string) error {
 		if opts.History != nil {
 			opts.History.maxSize = historyMax
 		}
+		opts.historyMax = historyMax
 		return nil
 	}
 	validateJumpLabels := false
